@@ -1219,3 +1219,229 @@ Proof. vm_compute. split; reflexivity. Qed.
 Lemma ident_name_needed :             (* a name with a space in it *)
   relation_from_str dv_parse (print_relation dv_print (mkRel [97; 32; 98]%N None None None [] : relation dversion)) = Err 9%N.
 Proof. vm_compute. reflexivity. Qed.
+
+(* ================================================================== G. what the reader returns is in the domain *)
+Definition tok_ok (t : rtoken) : Prop := fst t = IDENT -> ident_ok (snd t) = true.
+
+Lemma single_char_kind_not_ident c k : single_char_kind c = Some k -> k <> IDENT.
+Proof.
+  unfold single_char_kind.
+  repeat match goal with |- context [if ?b then _ else _] => destruct b; [intros H; inversion H; discriminate|] end.
+  discriminate.
+Qed.
+
+Lemma rlex_step_tok_ok c r t r' : rlex_step c r = (t, r') -> tok_ok t.
+Proof.
+  unfold rlex_step. destruct (single_char_kind c) as [k|] eqn:Ek.
+  - intros H. inversion H; subst. intros Hk. cbn in Hk. apply single_char_kind_not_ident in Ek. congruence.
+  - destruct (is_rel_ws c).
+    + destruct (span is_rel_ws r) as [w rr]. intros H. inversion H; subst. intros Hk. discriminate.
+    + destruct (is_ident_char c) eqn:Ec.
+      * destruct (span is_ident_char r) as [w rr] eqn:Es. intros H. inversion H; subst. intros _.
+        cbn [snd ident_ok forallb]. rewrite Ec. cbn [andb]. eapply span_all. exact Es.
+      * intros H. inversion H; subst. intros Hk. discriminate.
+Qed.
+
+Lemma rlex_go_tok_ok f : forall s ts, rlex_go f s = Ok ts -> Forall tok_ok ts.
+Proof.
+  induction f as [|f IH]; intros s ts H.
+  - destruct s; cbn in H; [inversion H; constructor|discriminate].
+  - destruct s as [|c r]; [cbn in H; inversion H; constructor|]. cbn [rlex_go] in H.
+    destruct (rlex_step c r) as [t r'] eqn:Es.
+    destruct (rlex_go f r') as [ts'| | |] eqn:E; try discriminate. inversion H; subst.
+    constructor; [eapply rlex_step_tok_ok; exact Es|eapply IH; exact E].
+Qed.
+Lemma rlex_tok_ok s ts : rlex s = Ok ts -> Forall tok_ok ts.
+Proof. apply rlex_go_tok_ok. Qed.
+
+(* the domain without the condition on the version (which is about the external parser) *)
+Definition relation_shape_ok {V} (r : relation V) : Prop :=
+  ident_ok (r_name r) = true
+  /\ match r_archqual r with Some q => ident_ok q = true | None => True end
+  /\ match r_archs r with Some a => forallb arch_ok a = true | None => True end
+  /\ forallb (forallb profile_ok) (r_profiles r) = true.
+
+Section ReaderRange.
+  Variable V : Type.
+  Variable vparse : str -> option V.
+
+  Lemma eat_whitespace_forall (P : rtoken -> Prop) ts : Forall P ts -> Forall P (eat_whitespace ts).
+  Proof.
+    induction ts as [|[k s] r IH]; intros H; [exact H|]. inversion H; subst.
+    destruct k; try exact H. cbn [eat_whitespace]. apply IH. assumption.
+  Qed.
+
+  Lemma read_constraint_forall (P : rtoken -> Prop) ts : forall acc, Forall P ts -> Forall P (snd (read_constraint ts acc)).
+  Proof.
+    induction ts as [|[k s] r IH]; intros acc H; [exact H|]. inversion H; subst.
+    destruct k; try exact H; cbn [read_constraint]; apply IH; assumption.
+  Qed.
+
+  Lemma read_version_string_forall (P : rtoken -> Prop) ts : forall acc vs r, Forall P ts ->
+    read_version_string ts acc = Ok (vs, r) -> Forall P r.
+  Proof.
+    induction ts as [|[k s] t IH]; intros acc vs r H E; [cbn in E; inversion E; constructor|].
+    inversion H; subst. destruct k; try discriminate; cbn [read_version_string] in E;
+      try (inversion E; subst; exact H); eapply IH; eassumption.
+  Qed.
+
+  Lemma read_version_forall (P : rtoken -> Prop) ts v r : Forall P ts ->
+    read_version vparse ts = Ok (v, r) -> Forall P r.
+  Proof.
+    intros H E. unfold read_version in E. destruct ts as [|[k s] t]; [inversion E; subst; exact H|].
+    inversion H; subst.
+    destruct k; try (inversion E; subst; exact H).
+    pose proof (read_constraint_forall P (eat_whitespace t) [] (eat_whitespace_forall P t ltac:(assumption))) as Hc.
+    destruct (read_constraint (eat_whitespace t) []) as [c r1]. cbn [snd] in Hc.
+    destruct (vc_of_str c); [|discriminate].
+    destruct (read_version_string (eat_whitespace r1) []) as [[vs r2]| | |] eqn:E2; try discriminate.
+    pose proof (read_version_string_forall P _ _ _ _ (eat_whitespace_forall P r1 Hc) E2) as Hr2.
+    destruct (vparse vs); [|discriminate].
+    pose proof (eat_whitespace_forall P r2 Hr2) as Hr3.
+    destruct (eat_whitespace r2) as [|[k' s'] r3]; [discriminate|]. inversion Hr3; subst.
+    destruct k'; try discriminate. inversion E; subst. assumption.
+  Qed.
+
+  Lemma read_archs_range ts : forall acc a r, Forall tok_ok ts -> forallb arch_ok acc = true ->
+    read_archs ts acc = Ok (a, r) -> forallb arch_ok a = true /\ Forall tok_ok r.
+  Proof.
+    induction ts as [ts IH] using list_len_ind. intros acc a r H Ha E.
+    destruct ts as [|[k s] t]; [discriminate|]. inversion H as [|? ? Hk Ht]; subst.
+    destruct k; try discriminate; cbn [read_archs] in E.
+    - eapply (IH t); [cbn; lia|exact Ht| |exact E].
+      rewrite forallb_app, Ha. cbn [forallb andb]. rewrite andb_true_r.
+      specialize (Hk eq_refl). cbn [snd] in Hk. unfold arch_ok. destruct s as [|c0 w]; [discriminate|].
+      destruct (N.eqb_spec c0 33) as [->|_]; [|exact Hk]. cbn [ident_ok forallb] in Hk. discriminate.
+    - inversion E; subst. split; assumption.
+    - destruct t as [|[k2 s2] t2]; [discriminate|]. inversion Ht as [|? ? Hk2 Ht2]; subst.
+      destruct k2; try discriminate.
+      eapply (IH t2); [cbn; lia|exact Ht2| |exact E].
+      rewrite forallb_app, Ha. cbn [forallb andb]. rewrite andb_true_r.
+      specialize (Hk2 eq_refl). cbn [snd] in Hk2. unfold arch_ok. rewrite N.eqb_refl. exact Hk2.
+    - eapply (IH t); [cbn; lia|exact Ht|exact Ha|exact E].
+  Qed.
+
+  Lemma read_profile_group_range ts : forall acc g r, Forall tok_ok ts -> forallb profile_ok acc = true ->
+    read_profile_group ts acc = Ok (g, r) -> forallb profile_ok g = true /\ Forall tok_ok r.
+  Proof.
+    induction ts as [ts IH] using list_len_ind. intros acc g r H Ha E.
+    destruct ts as [|[k s] t]; [discriminate|]. inversion H as [|? ? Hk Ht]; subst.
+    destruct k; try discriminate; cbn [read_profile_group] in E.
+    - eapply (IH t); [cbn; lia|exact Ht| |exact E].
+      rewrite forallb_app, Ha. cbn [forallb andb profile_ok]. rewrite andb_true_r. exact (Hk eq_refl).
+    - destruct t as [|[k2 s2] t2]; [discriminate|]. inversion Ht as [|? ? Hk2 Ht2]; subst.
+      destruct k2; try discriminate.
+      eapply (IH t2); [cbn; lia|exact Ht2| |exact E].
+      rewrite forallb_app, Ha. cbn [forallb andb profile_ok]. rewrite andb_true_r. exact (Hk2 eq_refl).
+    - inversion E; subst. split; assumption.
+    - eapply (IH t); [cbn; lia|exact Ht|exact Ha|exact E].
+  Qed.
+
+  Lemma read_profiles_range fuel : forall ts acc ps r, Forall tok_ok ts ->
+    forallb (forallb profile_ok) acc = true ->
+    read_profiles fuel ts acc = Ok (ps, r) -> forallb (forallb profile_ok) ps = true.
+  Proof.
+    induction fuel as [|f IH]; intros ts acc ps r H Ha E.
+    - destruct ts as [|[k s] t]; [inversion E; subst; exact Ha|]. destruct k; inversion E; subst; exact Ha.
+    - destruct ts as [|[k s] t]; [inversion E; subst; exact Ha|]. inversion H; subst.
+      destruct k; try (inversion E; subst; exact Ha). cbn [read_profiles] in E.
+      destruct (read_profile_group t []) as [[g r']| | |] eqn:Eg; try discriminate.
+      destruct (read_profile_group_range t [] g r' ltac:(assumption) eq_refl Eg) as [Hg Hr'].
+      eapply IH; [apply eat_whitespace_forall; exact Hr'| |exact E].
+      rewrite forallb_app, Ha. cbn [forallb]. rewrite Hg. reflexivity.
+  Qed.
+
+  Lemma bind_ok {A B} (x : res A) (f : A -> res B) b : bind x f = Ok b -> exists a, x = Ok a /\ f a = Ok b.
+  Proof. destruct x; cbn; intros H; try discriminate. exists a. split; [reflexivity|exact H]. Qed.
+
+  Theorem relation_from_str_range s r : relation_from_str vparse s = Ok r -> relation_shape_ok r.
+  Proof.
+    unfold relation_from_str. intros H. apply bind_ok in H. destruct H as (ts & El & H).
+    pose proof (rlex_tok_ok _ _ El) as Hts. unfold relation_from_tokens in H.
+    apply bind_ok in H. destruct H as ([name t1] & E1 & H).
+    apply bind_ok in H. destruct H as ([aq t2] & E2 & H).
+    apply bind_ok in H. destruct H as ([ver t3] & E3 & H).
+    apply bind_ok in H. destruct H as ([archs t4] & E4 & H).
+    apply bind_ok in H. destruct H as ([profs t5] & E5 & H).
+    destruct (eat_whitespace t5); [|discriminate]. inversion H; subst. clear H.
+    (* name *)
+    unfold read_name in E1. destruct ts as [|[k n] t]; [discriminate|]. inversion Hts as [|? ? Hk Ht]; subst.
+    destruct k; try discriminate. inversion E1; subst. clear E1.
+    (* qualifier *)
+    pose proof (eat_whitespace_forall tok_ok t1 Ht) as Ht1.
+    assert (Hq : match aq with Some q => ident_ok q = true | None => True end /\ Forall tok_ok t2).
+    { unfold read_archqual in E2. destruct (eat_whitespace t1) as [|[k w] u]; [inversion E2; subst; split; [exact I|constructor]|].
+      inversion Ht1 as [|? ? Hk1 Hu]; subst.
+      destruct k; try (inversion E2; subst; split; [exact I|exact Ht1]).
+      destruct u as [|[k2 s2] u2]; [discriminate|]. inversion Hu as [|? ? Hk2 Hu2]; subst.
+      destruct k2; try discriminate. inversion E2; subst. split; [exact (Hk2 eq_refl)|exact Hu2]. }
+    destruct Hq as [Hq Ht2].
+    pose proof (read_version_forall tok_ok _ _ _ (eat_whitespace_forall tok_ok t2 Ht2) E3) as Ht3.
+    pose proof (eat_whitespace_forall tok_ok t3 Ht3) as Ht3'.
+    assert (Ha : match archs with Some a => forallb arch_ok a = true | None => True end /\ Forall tok_ok t4).
+    { unfold read_architectures in E4. destruct (eat_whitespace t3) as [|[k w] u]; [inversion E4; subst; split; [exact I|constructor]|].
+      inversion Ht3' as [|? ? Hk1 Hu]; subst.
+      destruct k; try (inversion E4; subst; split; [exact I|exact Ht3']).
+      destruct (read_archs u []) as [[a r']| | |] eqn:Ea; try discriminate. inversion E4; subst.
+      exact (read_archs_range u [] a t4 Hu eq_refl Ea). }
+    destruct Ha as [Ha Ht4].
+    pose proof (read_profiles_range _ _ [] _ _ (eat_whitespace_forall tok_ok t4 Ht4) eq_refl E5) as Hp.
+    repeat split; cbn [r_name r_archqual r_archs r_profiles]; try assumption. exact (Hk eq_refl).
+  Qed.
+
+  (* hence: whatever Relation::from_str returns is read back from its own printed form, as soon as
+     the external version printer/parser agree on the version it contains *)
+  Theorem relation_reread (vprint : V -> str) s r : relation_from_str vparse s = Ok r ->
+    match r_version r with Some (_, v) => version_ok vparse vprint v | None => True end ->
+    relation_from_str vparse (print_relation vprint r) = Ok r.
+  Proof.
+    intros H Hv. destruct (relation_from_str_range s r H) as (Hn & Hq & Ha & Hp).
+    apply relation_rt. unfold relation_ok.
+    split; [exact Hn|]. split; [exact Hq|]. split; [exact Hv|]. split; [exact Ha|exact Hp].
+  Qed.
+
+  Lemma split_on_go_nonempty sep s : forall acc, split_on_go sep s acc <> [].
+  Proof. induction s as [|c r IH]; intros acc; cbn; [discriminate|]. destruct (c =? sep)%N; [discriminate|apply IH]. Qed.
+
+  Lemma read_alternatives_range ps : forall e, read_alternatives vparse ps = Ok e ->
+    length e = length ps /\ Forall relation_shape_ok e.
+  Proof.
+    induction ps as [|p rest IH]; intros e H; [inversion H; split; [reflexivity|constructor]|].
+    cbn [read_alternatives] in H. destruct (trim p) as [|c0 w] eqn:Et; [discriminate|]. rewrite <- Et in H.
+    apply bind_ok in H. destruct H as (r & Er & H). apply bind_ok in H. destruct H as (rs & Ers & H).
+    inversion H; subst. destruct (IH rs Ers) as [Hl Hf]. split; [cbn; lia|].
+    constructor; [eapply relation_from_str_range; exact Er|exact Hf].
+  Qed.
+
+  Definition entry_shape_ok (e : list (relation V)) : Prop := e <> [] /\ Forall relation_shape_ok e.
+
+  Lemma read_entries_range es : forall rs, read_entries vparse es = Ok rs -> Forall entry_shape_ok rs.
+  Proof.
+    induction es as [|e rest IH]; intros rs H; [inversion H; constructor|].
+    cbn [read_entries] in H. destruct (trim e) as [|c0 w] eqn:Et; [apply IH; exact H|]. rewrite <- Et in H.
+    apply bind_ok in H. destruct H as (alts & Ea & H). apply bind_ok in H. destruct H as (ents & Ee & H).
+    inversion H; subst. constructor; [|apply IH; exact Ee].
+    destruct (read_alternatives_range _ _ Ea) as [Hl Hf]. split; [|exact Hf].
+    intros ->. cbn in Hl. unfold split_on in Hl.
+    pose proof (split_on_go_nonempty 124%N (trim e) []) as Hne. destruct (split_on_go 124%N (trim e) []); [congruence|discriminate].
+  Qed.
+
+  Theorem relations_from_str_range s rs : relations_from_str vparse s = Ok rs -> Forall entry_shape_ok rs.
+  Proof.
+    unfold relations_from_str. destruct s; [intros H; inversion H; constructor|apply read_entries_range].
+  Qed.
+
+  Theorem relations_reread (vprint : V -> str) s rs : relations_from_str vparse s = Ok rs ->
+    Forall (Forall (fun r => match r_version r with Some (_, v) => version_ok vparse vprint v | None => True end)) rs ->
+    relations_from_str vparse (print_relations vprint rs) = Ok rs.
+  Proof.
+    intros H Hv. pose proof (relations_from_str_range s rs H) as Hs. apply relations_rt.
+    unfold relations_ok. clear H. induction rs as [|e rs IH]; [constructor|].
+    inversion Hs as [|? ? [Hne He] Hs']; subst. inversion Hv as [|? ? Hve Hv']; subst.
+    constructor; [|apply IH; assumption]. split; [exact Hne|].
+    clear -He Hve. induction e as [|r e IH]; [constructor|].
+    inversion He as [|? ? (Hn & Hq & Ha & Hp) He']; subst. inversion Hve as [|? ? Hvr Hve']; subst.
+    constructor; [|apply IH; assumption].
+    unfold relation_ok. split; [exact Hn|]. split; [exact Hq|]. split; [exact Hvr|]. split; [exact Ha|exact Hp].
+  Qed.
+End ReaderRange.
